@@ -35,8 +35,48 @@ import msdparser
 import simfile, simfile.base, simfile.sm, simfile.ssc
 from msdparser import MSDParameter as RealMSDParameter
 
+class ModelLimit(Exception):
+    """the code under test used the model environment (model filesystem, parameter recorder) in a way the model cannot
+    answer, e.g. a binary read while decoding is an abstract outcome bit, or msdparser's component-level API: the obligation
+    is inconclusive, never a violation"""
+
+
 # ------------------------------------------------------------------ StubParam
-REC = []
+class _Rec(list):
+    """list of recorded component tuples, plus a side table for interned concrete parameters (negative indices are not used:
+    interned entries live in .fixed under large indices derived from their content)"""
+
+    def __init__(self):
+        super().__init__()
+        self.fixed = {}
+
+    def __getitem__(self, i):
+        if isinstance(i, int) and i >= _FIXED_BASE:
+            return self.fixed[i]
+        return super().__getitem__(i)
+
+
+_FIXED_BASE = 10 ** 9
+REC = _Rec()
+
+try:
+    from crosshair.tracers import NoTracing as _NoTracing
+except Exception:   # plain replay without crosshair
+    import contextlib
+    _NoTracing = contextlib.nullcontext
+
+
+def _intern(comps):
+    """index >= _FIXED_BASE for an all-concrete component tuple (a pure function of its content), None otherwise"""
+    import zlib
+    with _NoTracing():
+        if not all(type(c) is str for c in comps):
+            return None
+        i = _FIXED_BASE + zlib.crc32(repr(comps).encode("utf-8", "surrogatepass"))
+        while REC.fixed.get(i, comps) != comps:   # crc collision between different contents: next free slot
+            i += 1
+        REC.fixed[i] = comps
+        return i
 
 
 class StubParam:
@@ -45,8 +85,15 @@ class StubParam:
     the real serializer does: AttributeError from component.replace)."""
 
     def __init__(self, components):
-        REC.append(tuple(components))
-        self.idx = len(REC) - 1
+        comps = tuple(components)
+        # concrete parameters are interned by content: serializing the same concrete content twice gives the same text, as
+        # with the real MSDParameter (code that compares two serializations must see them equal).  Parameters with a symbolic
+        # component always get a fresh index.  The look-up runs outside CrossHair's tracing (it must neither see the faked
+        # type of a symbolic string nor count as part of the explored path) and is idempotent across re-executions.
+        self.idx = _intern(comps)
+        if self.idx is None:
+            REC.append(comps)
+            self.idx = len(REC) - 1
 
     @property
     def components(self):
@@ -67,11 +114,26 @@ class StubParam:
                 raise AttributeError("'%s' object has no attribute 'replace'" % type(c).__name__)
         return "#<%d>;" % self.idx
 
-    def __str__(self):
+    def __str__(self, *, escapes=True):
+        if not escapes:
+            raise ModelLimit("ModelLimit: MSDParameter.__str__(escapes=False) is not modelled by the recorder")
         return self._render()
 
     def __format__(self, spec):
         return self._render()
+
+    # the rest of msdparser's MSDParameter API: a serializer that bypasses str(param) cannot be followed by the recorder; the
+    # obligation is then inconclusive (the real-serializer family xh_escapes decides such code), never a violation
+    _MUST_ESCAPE = ("//", ":", ";")
+
+    def serialize(self, file, *, escapes=True):
+        if not escapes:
+            raise ModelLimit("ModelLimit: MSDParameter.serialize(escapes=False) is not modelled by the recorder")
+        file.write(self._render())
+
+    @staticmethod
+    def serialize_component(component, *, escapes=True):
+        raise ModelLimit("ModelLimit: MSDParameter.serialize_component is not modelled by the recorder")
 
 
 def install_stub():
@@ -100,7 +162,7 @@ def record(obj):
     text = out.getvalue()
     raw = [int(x) for x in _MARK.findall(text)]
     gaps = _MARK.split(text)[0::2]
-    if any(i >= len(REC) for i in raw):
+    if any((i >= len(REC) and i < _FIXED_BASE) or (i >= _FIXED_BASE and i not in REC.fixed) for i in raw):
         return [], text, ["unknown marker"], [-1]
     stream = [REC[i] for i in raw]
     counter = iter(range(len(raw)))
@@ -109,12 +171,12 @@ def record(obj):
 
 
 def record_keep(obj):
-    """like record() but keeps earlier REC entries (marker indices stay valid for texts written before)"""
-    start = len(REC)
+    """serialize obj and return (parameter stream, text); the stream is read off the text's markers (concrete parameters are
+    interned, so a serialization need not add entries to REC)"""
     out = io.StringIO()
     obj.serialize(out)
     text = out.getvalue()
-    return [REC[i] for i in range(start, len(REC))], text
+    return [REC[int(x)] for x in _MARK.findall(text)], text
 
 
 def stream_of_text(text):
@@ -131,7 +193,16 @@ def params(stream):
 
 
 def gaps_blank(gaps):
-    return all(g.strip() == "" for g in gaps)
+    """nothing but blanks and '//' comments between parameters (a comment runs to the end of its line; whatever follows a line
+    break inside it is ordinary text again, i.e. stray text for the strict parser)"""
+    for g in gaps:
+        if g.strip() == "":
+            continue
+        for line in g.replace(chr(13), chr(10)).split(chr(10)):
+            k = line.find("//")
+            if (line if k < 0 else line[:k]).strip() != "":
+                return False
+    return True
 
 
 # ------------------------------------------------------------------ key set regenerated from the source
@@ -158,15 +229,13 @@ SSC_KEYS = [k for k in KEYS if k != "NOTEDATA"]
 
 
 # ------------------------------------------------------------------ model filesystem
-class ModelLimit(Exception):
-    """the code under test used the model filesystem in a way the model cannot answer (e.g. a binary read while decoding is
-    an abstract outcome bit): the obligation is inconclusive, never a violation"""
-
-
 class _Writer(io.StringIO):
     def __init__(self, fs, name):
         super().__init__()
         self.fs, self.name_ = fs, name
+
+    def write_initial(self, s):
+        io.StringIO.write(self, s)
 
     def write(self, s):
         self.fs.tick("write:" + self.name_)
@@ -220,6 +289,13 @@ class ModelFS:
             raw = io.BytesIO(self.files[name].encode("utf-8"))
             raw.name = name
             return io.TextIOWrapper(raw, encoding="utf-8", newline="")
+        if mode == "a":
+            # append mode: creates the file if it does not exist, keeps existing content
+            self.files.setdefault(name, "")
+            self.write_encoding[name] = encoding
+            w = _Writer(self, name)
+            w.write_initial(self.files[name])
+            return w
         if mode != "w":
             if mode == "rb" and self.decodes is None:
                 if name not in self.files:
